@@ -75,20 +75,20 @@ Proof. intro Hf. unfold c02_dtot. rewrite getv_tab by exact Hf. reflexivity. Qed
 (* (1) overproduction *)
 
 Lemma c02_overprod1_cases Pm a z :
-  (0 < z -> overprod1 Pm a z = qmax 1 (a + (a_max Pm - a) * z * a_rate Pm)) /\
-  (z = 0 -> overprod1 Pm a z = qmax 1 (a + (a_base Pm - a) * a_rate Pm)) /\
-  (z < 0 -> overprod1 Pm a z = qmax 1 (a + (a_base Pm - a) * a_rate Pm) \/
-            overprod1 Pm a z = qmax 1 (a + (a_max Pm - a) * z * a_rate Pm)).
+  (0 < z -> overprod1 Pm a z = qmin (a_max Pm) (qmax 1 (a + (a_max Pm - a) * z * a_rate Pm))) /\
+  (z = 0 -> overprod1 Pm a z = qmin (a_max Pm) (qmax 1 (a + (a_base Pm - a) * a_rate Pm))) /\
+  (z < 0 -> overprod1 Pm a z = qmin (a_max Pm) (qmax 1 (a + (a_base Pm - a) * a_rate Pm)) \/
+            overprod1 Pm a z = qmin (a_max Pm) (qmax 1 (a + (a_max Pm - a) * z * a_rate Pm))).
 Proof.
   unfold overprod1. cbv zeta. split; [|split].
   - intro Hz. destruct (Qceqb_spec z 0) as [E|E].
     + exfalso. rewrite E in Hz. exact (c02_lt_irrefl _ Hz).
-    + f_equal. ring.
+    + f_equal. f_equal. ring.
   - intro Hz. rewrite Hz. destruct (Qceqb_spec 0 0) as [E|E]; [|congruence].
-    f_equal. ring.
+    f_equal. f_equal. ring.
   - intro Hz. right. destruct (Qceqb_spec z 0) as [E|E].
     + exfalso. rewrite E in Hz. exact (c02_lt_irrefl _ Hz).
-    + f_equal. ring.
+    + f_equal. f_equal. ring.
 Qed.
 
 Lemma c02_alpha_rel Pm a d x :
@@ -110,12 +110,25 @@ Proof.
   rewrite c02_dtot_get by exact Hf. apply c02_alpha_rel.
 Qed.
 
+(* the updated factor is min(a_max, max(1, .)): its sign is the sign of a_max
+   (no sign condition on a_max is part of [WFpre]) *)
 Lemma c02_alpha_nonneg Pm s f : (f < NN Pm)%nat ->
+  (p_guard s = true -> 0 <= a_max Pm) ->
   (forall f, (f < NN Pm)%nat -> 0 <= getv (p_alpha s) f) ->
   0 <= getv (q_alpha (econ_step Pm s)) f.
 Proof.
-  intros Hf Ha. rewrite c02_q_alpha. destruct (p_guard s); [|apply Ha; exact Hf].
-  rewrite c02_overprod_get by exact Hf. unfold overprod1. cbv zeta. apply c02_qmax1_nonneg.
+  intros Hf HM Ha. rewrite c02_q_alpha. destruct (p_guard s); [|apply Ha; exact Hf].
+  rewrite c02_overprod_get by exact Hf. unfold overprod1. cbv zeta.
+  apply qmin_glb; [apply HM; reflexivity|apply c02_qmax1_nonneg].
+Qed.
+
+Lemma c02_alpha_neg Pm s f : (f < NN Pm)%nat ->
+  p_guard s = true -> a_max Pm < 0 ->
+  getv (q_alpha (econ_step Pm s)) f <= 0.
+Proof.
+  intros Hf Hg HM. rewrite c02_q_alpha, Hg.
+  rewrite c02_overprod_get by exact Hf. unfold overprod1. cbv zeta.
+  eapply Qcle_trans; [apply qmin_l|apply Qclt_le_weak; exact HM].
 Qed.
 
 (* ------------------------------------------------------------------ *)
@@ -138,15 +151,33 @@ Proof.
 Qed.
 
 Lemma c02_opt_nonneg Pm s f : WFpre Pm s -> (f < NN Pm)%nat ->
+  (p_guard s = true -> 0 <= a_max Pm) ->
   0 <= getv (q_opt (econ_step Pm s)) f.
 Proof.
-  intros WF Hf. destruct (c02_clause_cap Pm s f Hf) as [Ec Eo]. rewrite Eo.
+  intros WF Hf HM. destruct (c02_clause_cap Pm s f Hf) as [Ec Eo]. rewrite Eo.
   apply qmin_glb.
   - unfold tot. apply sumn_nonneg. intros j Hj. apply (wq_dem _ _ WF); assumption.
   - rewrite Ec. apply c02_mul3_nonneg.
-    + apply c02_alpha_nonneg; [exact Hf|apply (wq_alpha _ _ WF)].
+    + apply c02_alpha_nonneg; [exact Hf|exact HM|apply (wq_alpha _ _ WF)].
     + apply c02_one_minus_nonneg. apply (wq_delta _ _ WF). exact Hf.
     + apply (wq_X0 _ _ WF). exact Hf.
+Qed.
+
+Lemma c02_mul_nonpos_nonneg a b : a <= 0 -> 0 <= b -> a * b <= 0.
+Proof. intros Ha Hb. qc2q. nra. Qed.
+
+(* with a negative maximum every updated factor, hence every capacity and every
+   optimal production, is non-positive *)
+Lemma c02_opt_nonpos Pm s f : WFpre Pm s -> (f < NN Pm)%nat ->
+  p_guard s = true -> a_max Pm < 0 ->
+  getv (q_opt (econ_step Pm s)) f <= 0.
+Proof.
+  intros WF Hf Hg HM. destruct (c02_clause_cap Pm s f Hf) as [Ec Eo]. rewrite Eo.
+  eapply Qcle_trans; [apply qmin_r|]. rewrite Ec.
+  apply c02_mul_nonpos_nonneg; [apply c02_mul_nonpos_nonneg|].
+  - apply c02_alpha_neg; assumption.
+  - apply c02_one_minus_nonneg. apply (wq_delta _ _ WF). exact Hf.
+  - apply (wq_X0 _ _ WF). exact Hf.
 Qed.
 
 (* ------------------------------------------------------------------ *)
@@ -252,6 +283,51 @@ Qed.
 
 End Production.
 
+(* no optimal production is positive: nothing is short, production = optimal production *)
+Section ProductionNonpos.
+Variable Pm : params.
+Variables (stk : mat) (optv : vec).
+Hypothesis Htech : forall p f, (p < nS Pm)%nat -> (f < NN Pm)%nat -> 0 <= get (tech Pm) p f.
+Hypothesis Hpsi : 0 <= psi Pm.
+Hypothesis Hinv : forall p, 0 <= invq Pm p.
+Hypothesis Hstk : forall p f, (p < nS Pm)%nat -> (f < NN Pm)%nat -> isinf Pm p = false ->
+  0 <= get stk p f.
+Hypothesis Hopt : forall f, (f < NN Pm)%nat -> getv optv f <= 0.
+
+Lemma c02_cons_nonpos p f : (p < nS Pm)%nat -> (f < NN Pm)%nat ->
+  invq Pm p * getv optv f * get (tech Pm) p f * psi Pm <= 0.
+Proof.
+  intros Hp Hf.
+  replace (invq Pm p * getv optv f * get (tech Pm) p f * psi Pm)
+    with (getv optv f * (invq Pm p * get (tech Pm) p f * psi Pm)) by ring.
+  apply c02_mul_nonpos_nonneg; [apply Hopt; exact Hf|].
+  apply c02_mul3_nonneg; auto.
+Qed.
+
+Lemma c02_no_short : any_short Pm stk (constraints Pm optv) = false.
+Proof.
+  destruct (any_short Pm stk (constraints Pm optv)) eqn:Hs; [|reflexivity].
+  exfalso. unfold any_short in Hs. apply anyn_spec in Hs. destruct Hs as [p [Hp Hs]].
+  apply anyn_spec in Hs. destruct Hs as [f [Hf Hs]].
+  unfold short_cell in Hs.
+  apply andb_true_iff in Hs. destruct Hs as [Hs Hlt].
+  apply andb_true_iff in Hs. destruct Hs as [Hm Hi].
+  apply negb_true_iff in Hi.
+  destruct (Qcltb_spec (get stk p f) (get (constraints Pm optv) p f)) as [L|L]; [|discriminate Hlt].
+  rewrite c03_cons_get in L by assumption.
+  pose proof (c02_cons_nonpos p f Hp Hf) as Hc.
+  replace (getv optv f * get (tech Pm) p f * psi Pm * invq Pm p)
+    with (invq Pm p * getv optv f * get (tech Pm) p f * psi Pm) in L by ring.
+  pose proof (Hstk p f Hp Hf Hi) as H0.
+  apply (c02_lt_irrefl 0).
+  eapply Qcle_lt_trans; [exact H0|]. eapply Qclt_le_trans; [exact L|exact Hc].
+Qed.
+
+Lemma c02_prod_nonpos : production Pm stk optv = optv.
+Proof. rewrite c03_production_unfold, c02_no_short. reflexivity. Qed.
+
+End ProductionNonpos.
+
 Lemma c02_clause_prod Pm s f : WFpre Pm s -> (f < NN Pm)%nat ->
   let r := econ_step Pm s in
   let cons p := invq Pm p * getv (q_opt r) f * get (tech Pm) p f * psi Pm in
@@ -268,10 +344,33 @@ Proof.
     by (intros p Hp; apply (wq_tech _ _ WF); assumption).
   assert (Hstk : forall p, (p < nS Pm)%nat -> isinf Pm p = false -> 0 <= get (p_stock s) p f)
     by (intros p Hp Hi; apply (wq_stock _ _ WF); assumption).
-  pose proof (c02_opt_nonneg Pm s f WF Hf) as Hopt.
-  split.
-  - apply c02_prod_caseA; auto; try apply (wq_psi _ _ WF); try apply (wq_inv _ _ WF).
-  - apply c02_prod_caseB; auto; try apply (wq_psi _ _ WF); try apply (wq_inv _ _ WF).
+  assert (Hcase : (p_guard s = true -> 0 <= a_max Pm) \/ (p_guard s = true /\ a_max Pm < 0)).
+  { destruct (p_guard s); [|left; discriminate].
+    destruct (Qclt_le_dec (a_max Pm) 0) as [Hn|Hp]; [right; split; [reflexivity|exact Hn]|].
+    left. intros _. exact Hp. }
+  destruct Hcase as [HM|[Hg HM]].
+  - pose proof (c02_opt_nonneg Pm s f WF Hf HM) as Hopt.
+    split.
+    + apply c02_prod_caseA; auto; try apply (wq_psi _ _ WF); try apply (wq_inv _ _ WF).
+    + apply c02_prod_caseB; auto; try apply (wq_psi _ _ WF); try apply (wq_inv _ _ WF).
+  - (* a negative maximum: every optimal production is non-positive, nothing is short *)
+    assert (Hopt : forall f0, (f0 < NN Pm)%nat -> getv (q_opt (econ_step Pm s)) f0 <= 0)
+      by (intros f0 Hf0; apply c02_opt_nonpos; assumption).
+    split.
+    + intros _. f_equal. apply c02_prod_nonpos.
+      * intros p f0 Hp Hf0. apply (wq_tech _ _ WF); assumption.
+      * apply (wq_psi _ _ WF).
+      * apply (wq_inv _ _ WF).
+      * intros p f0 Hp Hf0 Hi. apply (wq_stock _ _ WF); assumption.
+      * exact Hopt.
+    + intros [p [Hp [[Hm Hi] Hlt]]]. exfalso.
+      apply (c02_lt_irrefl 0).
+      eapply Qcle_lt_trans; [apply (Hstk p Hp Hi)|].
+      eapply Qclt_le_trans; [exact Hlt|].
+      apply (c02_cons_nonpos Pm (q_opt (econ_step Pm s))); try assumption.
+      * intros p0 f0 Hp0 Hf0. apply (wq_tech _ _ WF); assumption.
+      * apply (wq_psi _ _ WF).
+      * apply (wq_inv _ _ WF).
 Qed.
 
 (* ------------------------------------------------------------------ *)
